@@ -2,6 +2,7 @@ package checks
 
 import (
 	"bytes"
+	"errors"
 	"fmt"
 	"math/rand"
 
@@ -49,7 +50,13 @@ func runRefProfile(c *core.Ctx, pf *refProfile) {
 			c.Unspecified()
 			return
 		}
-		res := Interpret(cs.Laid.Src)
+		// the call gets its own copy of the input, which is overwritten as soon as the call has
+		// returned: results must not refer to the caller's buffer
+		in := append([]byte{}, cs.Laid.Src...)
+		res := Interpret(in)
+		for k := range in {
+			in[k] = '#'
+		}
 		c.Eval(1)
 		mm, unspec := CompareInterpret(cs, res)
 		if unspec {
@@ -121,6 +128,16 @@ func runRefProfile(c *core.Ctx, pf *refProfile) {
 		p := g.Program()
 		runOne(i, p, g, "random")
 	}
+}
+
+// failAfter is a writer that accepts n bytes and then fails.
+type failAfter struct{ n int }
+
+func (f failAfter) Write(p []byte) (int, error) {
+	if len(p) > f.n {
+		return f.n, errors.New("no space left on device")
+	}
+	return len(p), nil
 }
 
 func classHead(cl string) string {
@@ -544,6 +561,24 @@ func c04Fixed(c *core.Ctx, run func(i int64, p *lang.Program, tag string)) int64
 		run(i, &lang.Program{Stmts: []*lang.Stmt{blk("srv", "n1", 1), {Kind: lang.SBind, Name: "srv", Sel: "all", Target: "struct"}}}, "all_to_struct")
 	}
 	i++
+	// long results: hundreds of toplevel blocks, binds in between and after
+	for _, n := range []int{200, 255, 256, 257, 300, 1000} {
+		for _, sel := range []string{"last", "all", "first"} {
+			if c.Mine(i) {
+				p := &lang.Program{}
+				for k := 0; k < n; k++ {
+					p.Stmts = append(p.Stmts, blk([]string{"srv", "other"}[k%2], fmt.Sprintf("n%d", k), k))
+				}
+				tgt := "slice"
+				p.Stmts = append(p.Stmts, &lang.Stmt{Kind: lang.SBind, Name: "srv", Sel: sel, Target: tgt})
+				p.Stmts = append(p.Stmts, blk("srv", "late1", 5001), blk("late", "x", 5002), blk("srv", "late2", 5003))
+				p.Stmts = append(p.Stmts, &lang.Stmt{Kind: lang.SBind, Name: "srv", Sel: sel, Target: tgt})
+				p.Stmts = append(p.Stmts, &lang.Stmt{Kind: lang.SBind, Name: "late", Sel: "", Target: "struct"})
+				run(i, p, "long_result_with_binds")
+			}
+			i++
+		}
+	}
 	return i
 }
 
@@ -608,6 +643,17 @@ func init() {
 						return
 					}
 					c.Count("warnings_compared", int64(len(cs.Oc.Warnings)))
+					if len(cs.Oc.Warnings) > 0 && cs.Oc.Unspecified == "" {
+						// the log writer fails: the warning is lost, the run and its binding are not
+						var out bytes.Buffer
+						bl, bi, err := bcl.Interpret(cs.Laid.Src, bcl.OptOutput(&out), bcl.OptLogger(failAfter{0}))
+						c.Eval(1)
+						if (err == nil) != (cs.Oc.Err == nil) || blocksEq(cs.Oc.Blocks, bl) != "" || bindingEq(cs.Oc.Binding, bi) != "" {
+							c.Violation("failing-log-writer-changes-outcome", fmt.Sprintf("with a log writer that fails, a program with repeated binds gives err=%v (expected error: %v) or other blocks/binding", err, cs.Oc.Err != nil), detailOf(cs, r))
+							return
+						}
+						c.Count("runs_with_failing_log_writer", 1)
+					}
 					if cs.Oc.Binding != nil {
 						if cs.Oc.Binding.Slice {
 							c.Count("slice_bindings_compared", 1)
